@@ -66,7 +66,7 @@ class TableEnv(AbstractEnv):
         if self.akind == "disc":
             self.action_space = Discrete(cfg["nA"])
         else:
-            self.action_space = Box(cfg["alo"] / 4.0, cfg["ahi"] / 4.0, shape=())
+            self.action_space = Box(cfg["alo"] / 4.0, float("inf") if cfg.get("aopen") else cfg["ahi"] / 4.0, shape=())
         if self.okind == "disc":
             self.observation_space = Discrete(cfg["nO"])
         else:
@@ -225,7 +225,7 @@ def spaces_after(w: dict, aspace: dict, ospace: dict):
 
 
 def base_spaces(cfg):
-    return ({"kind": cfg["akind"], "lo": cfg["alo"], "hi": cfg["ahi"]},
+    return ({"kind": cfg["akind"], "lo": cfg["alo"], "hi": INF if cfg.get("aopen") else cfg["ahi"]},
             {"kind": cfg["okind"], "lo": cfg["olo"], "hi": cfg["ohi"], "n": cfg["nO"]})
 
 
@@ -250,7 +250,7 @@ def template_key(cfg: dict) -> str:
     """Everything that is static / captured in closures: same key <=> array leaves may be swapped."""
     st = [(w["kind"], w["lo"], w["hi"], w["m"], w["c"], tuple(w["tab"]), w["n"] if w["kind"] != "TimeLimit" else 0)
           for w in cfg["stack"]]
-    return repr((cfg["akind"], cfg["okind"], cfg["alo"], cfg["ahi"], cfg["olo"], cfg["ohi"],
+    return repr((cfg["akind"], cfg["okind"], cfg["alo"], cfg["ahi"], bool(cfg.get("aopen")), cfg["olo"], cfg["ohi"],
                  cfg["nA"] if cfg["akind"] == "disc" else 0, cfg["nO"], cfg["hasMask"], st))
 
 
@@ -396,6 +396,9 @@ def gen_mdp(rng: random.Random, akind="disc", okind="disc", mask=False, nS=None,
     cfg = dict(nS=nS, nA=nA, T=T, R=R, Term=Term, ITrunc=ITr, Init=Init, Obs=Obs,
                hasMask=bool(mask and akind == "disc"), Mask=[[True] * nA for _ in range(nS + 1)],
                akind=akind, alo=alo, ahi=ahi, astep=astep, okind=okind, olo=olo, ohi=ohi, nO=nO, stack=[])
+    # about a quarter of the box action spaces are declared bounded below only (a function of the drawn values, so that the random
+    # stream - and with it every other configuration - is unchanged)
+    cfg["aopen"] = bool(static.get("aopen", False)) if static is not None else bool(akind == "box" and (alo // 2 + nS + nA) % 4 == 0)
     if cfg["hasMask"]:
         for s in range(nS):
             m = [rng.random() < 0.6 for _ in range(nA)]
